@@ -4,6 +4,28 @@ import json, os, subprocess
 V = os.path.dirname(os.path.dirname(os.path.abspath(__file__)))
 
 CLAIMED = {
+ 'C11': dict(
+    text='Theorems (Coq 8.16) over a model of the three UTF codecs and count_unicode_chars, for ALL buffers: the bounded form never reads '
+         'outside [begin,end) and the NUL-terminated form nothing beyond the first NUL (checked reads; validate() is shown to dominate '
+         'every continuation read); every scalar < 0x110000 round-trips (exhaustive kernel evaluation over the finite code space); exact '
+         'count with no error on canonical text; error at the first ill-formed sequence with count = well-formed prefix; error pointer '
+         'inside the buffer; resynchronisation skips continuation bytes only; the three encodings decode to the same characters.  Tied '
+         'to the source by regenerated tables (tie A) and by running the extracted model against the ASan build on ~100k buffers incl. '
+         'all UTF-8 strings of <= 2 bytes (tie B), with an independent reference decoder as oracle.',
+    note='Trusted: Coq kernel incl. vm_compute (two exhaustive sweeps of 0x110000 code points); extraction + OCaml driver; harness '
+         'impl_utf.cpp; ASan.  Well-formedness is structural (surrogate code points in UTF-8/32 are accepted by the library; DESIGN 7/F9). '
+         'get/validate themselves are hand-modelled (reference out-parameters are outside the translator subset): tie B only.',
+    technique='Coq proof (induction + finite sweep by vm_compute) over hand model; regenerated tables (tie A); differential correspondence (tie B)',
+    design='6/C11'),
+ 'C12': dict(
+    text='Theorems over the model of process_utf_data: on memory holding exactly the text and its terminating NUL unit, for every nChars '
+         'the reader never traps (no unit beyond the NUL is read) and yields exactly the first nChars characters of the full decode - one '
+         'char-info per character consumed; on canonical text the characters and code-unit offsets are the text\'s.  All three encodings, '
+         'all texts, all nChars.  Tie B: gr_make_seg on buffers allocated exactly to the terminator under ASan vs the extracted model.',
+    note='Trusted: as C11.  The defect found by this check (F3: no NUL test in process_utf_data) was repaired by a fix: commit; the model '
+         'follows the repaired code.',
+    technique='Coq proof (induction over text, generic in the codec) over hand model; differential correspondence (tie B) under ASan',
+    design='6/C12'),
  'C20': dict(
     text='Machine-checked theorems (Coq 8.16) over a model of gr_str_to_tag / gr_tag_to_str / zeropad for ALL C strings and ALL '
          '32-bit tags: value = big-endian of the first min(4,len) bytes, no read beyond the NUL (checked reads on the exact region), '
